@@ -161,8 +161,11 @@ pub struct ParseErr {
     pub text: String,
     /// variant name of the error code
     pub code: String,
-    /// line named by the location
+    /// line named by the rendered message (`Parse error (line N): ...`), i.e. what a user sees;
+    /// 0 if the message does not have that shape
     pub line: u32,
+    /// line of the error's location value
+    pub loc_line: u32,
     /// spelling of the offending token, if the location is a token
     pub token: Option<String>,
 }
@@ -195,10 +198,16 @@ pub fn parse_guarded(src: &str, fuel_per_byte: u64, trap: bool) -> Result<ParseR
                     }
                     rrss::frontend::parser::ParseErrorLocation::Line(l) => (*l, None),
                 };
+                let shown = text
+                    .strip_prefix("Parse error (line ")
+                    .and_then(|r| r.split(')').next())
+                    .and_then(|n| n.parse::<u32>().ok())
+                    .unwrap_or(0);
                 Err(ParseErr {
                     text,
                     code: code_name(&e.code),
-                    line,
+                    line: shown,
+                    loc_line: line,
                     token,
                 })
             }
